@@ -7,6 +7,8 @@
 From Verif Require Import Base.Bytestr Front.Ast Back.BashLines Back.Transpile Back.BashConv Back.NameFacts Back.BashFacts.
 Open Scope N_scope.
 
+From Verif Require Import Facts.C02Facts.
+
 Theorem C02_frames_disjoint : forall k1 k2 n1 n2, mangled k1 n1 = mangled k2 n2 -> k1 = k2 /\ n1 = n2.
 Proof. exact mangled_inj. Qed.
 Print Assumptions C02_frames_disjoint.
@@ -27,9 +29,7 @@ Print Assumptions C02_fresh_function_number.
 Theorem C02_call_lines_of_statement : forall st s s',
   t_stmt bash_conv st s = TOk tt s' -> emits st = true ->
   exists ls, b_code s' = b_code s ++ ls /\ call_lines ls = calls_stmt st.
-Proof.
-  intros st s s' H He. destruct (t_stmt_ok st s s' H He) as (ls & E & _ & _ & C). exists ls. split; [apply (sx_code _ _ _ E)|exact C].
-Qed.
+Proof. exact C02_call_lines_of_statement_proof. Qed.
 Print Assumptions C02_call_lines_of_statement.
 
 Example C02_sample : mangled 1 (bs "x") = bs "f1_x" /\ mangled 12 (bs "_h3") = bs "f12__h3".
